@@ -160,6 +160,9 @@ def run(tier, seed, replay=None):
             continue
         sd = side(dialect)
         ok, out = instance(dialect)
+        if d.get('bad_defaults'):
+            ok = False
+            out = f'defaulted states that are not reductions: {d["bad_defaults"]} (executed without looking at the next token)'
         R.obligation(f'instance C05_{dialect} (K_tables tbl = true by vm_compute; cb={d["cb"]} <> CbIgnore)', ok)
         if ok:
             pa = print_assumptions(out)
@@ -178,7 +181,7 @@ def run(tier, seed, replay=None):
         else:
             cases = gen_cases(dialect, rng, n_per)
             # fixed corpus first: the resynchronisation shapes the property text worries about
-            for txt in ['x y ; select 1', 'x select 1', 'select 1 select 2', 'select 1 ; select 2', ') select 1',
+            for txt in ['select 1 )', 'select 1 ) drop table t', 'commit ) ) x y z', 'select a from t where b = 2 ) x', 'x y ; select 1', 'x select 1', 'select 1 select 2', 'select 1 ; select 2', ') select 1',
                         'select 1 x y', 'select from', '', 'select 1 ;;', 'x y\n; select 1', 'x\nselect 1\nselect 2',
                         'select a from from t1\nunion\nselect a from t2', 'select 1 x\n\n y select 2']:
                 try:
